@@ -121,7 +121,14 @@ class _Spell(ast.NodeTransformer):
         self.selfnames = []
 
     def visit_FunctionDef(self, fn):
-        self.selfnames.append(fn.args.args[0].arg if fn.args.args and fn.args.args[0].arg in ("self",) else None)
+        params = {a.arg for a in fn.args.posonlyargs + fn.args.args + fn.args.kwonlyargs}
+        if fn.args.args and fn.args.args[0].arg == "self":
+            nm = "self"
+        elif self.selfnames and self.selfnames[-1] and self.selfnames[-1] not in params:
+            nm = self.selfnames[-1]          # a nested helper closes over the method's receiver
+        else:
+            nm = None
+        self.selfnames.append(nm)
         self.generic_visit(fn)
         self.selfnames.pop()
         return fn
@@ -392,6 +399,81 @@ def _split_tuple_assignments(tree):
     return k
 
 
+def _inline_predicates(tree):
+    """`if self._accept(a, b): ..` where `_accept` is a private method of the same class made only of `if c: return True/False`
+    steps and a final `return <expr>`, with nothing but tests in it: the test written out (`c1 or c2`).  Arguments must be plain reads
+    (names, attributes, subscripts, constants), so writing them more than once changes nothing."""
+    import copy
+    k = 0
+
+    def plain(e):
+        return all(isinstance(x, (ast.Name, ast.Attribute, ast.Subscript, ast.Constant, ast.Load, ast.UnaryOp, ast.USub, ast.Slice))
+                   for x in ast.walk(e))
+
+    def as_test(fn):
+        body = [st for st in fn.body if not (isinstance(st, ast.Expr) and isinstance(st.value, ast.Constant))]
+        if not body or not isinstance(body[-1], ast.Return) or body[-1].value is None:
+            return None
+        out = body[-1].value
+        for st in reversed(body[:-1]):
+            if not (isinstance(st, ast.If) and not st.orelse and len(st.body) == 1 and isinstance(st.body[0], ast.Return)
+                    and isinstance(st.body[0].value, ast.Constant) and isinstance(st.body[0].value.value, bool)):
+                return None
+            if st.body[0].value.value:
+                out = ast.BoolOp(op=ast.Or(), values=[st.test, out])
+            else:
+                out = ast.BoolOp(op=ast.And(), values=[ast.UnaryOp(op=ast.Not(), operand=st.test), out])
+        if any(isinstance(x, (ast.NamedExpr, ast.Lambda, ast.Yield, ast.Await)) for x in ast.walk(out)):
+            return None
+        return out
+
+    for cls in [c for c in ast.walk(tree) if isinstance(c, ast.ClassDef)]:
+        preds = {}
+        for fn in cls.body:
+            if isinstance(fn, ast.FunctionDef) and fn.name.startswith("_") and not fn.name.startswith("__") and not fn.decorator_list \
+                    and fn.args.args and fn.args.args[0].arg == "self" and not fn.args.vararg and not fn.args.kwarg and not fn.args.kwonlyargs:
+                t = as_test(fn)
+                if t is not None:
+                    preds[fn.name] = (fn, t)
+        if not preds:
+            continue
+        used = set()
+        for fn in cls.body:
+            if not isinstance(fn, ast.FunctionDef) or fn.name in preds:
+                continue
+            for st in ast.walk(fn):
+                if not isinstance(st, (ast.If, ast.While)):
+                    continue
+                t = st.test
+                neg = 0
+                while isinstance(t, ast.UnaryOp) and isinstance(t.op, ast.Not):
+                    t, neg = t.operand, neg + 1
+                if not (isinstance(t, ast.Call) and isinstance(t.func, ast.Attribute) and isinstance(t.func.value, ast.Name)
+                        and t.func.value.id == "self" and t.func.attr in preds):
+                    continue
+                pfn, ptest = preds[t.func.attr]
+                names = [a.arg for a in pfn.args.args[1:]]
+                if any(isinstance(a, ast.Starred) for a in t.args) or any(kw.arg is None for kw in t.keywords):
+                    continue
+                bind = dict(zip(names, t.args))
+                bind.update({kw.arg: kw.value for kw in t.keywords})
+                if set(bind) != set(names) or not all(plain(v) for v in bind.values()):
+                    continue
+
+                class Sub(ast.NodeTransformer):
+                    def visit_Name(self, n):
+                        return copy.deepcopy(bind[n.id]) if n.id in bind and isinstance(n.ctx, ast.Load) else n
+                new_t = Sub().visit(copy.deepcopy(ptest))
+                for _ in range(neg):
+                    new_t = ast.UnaryOp(op=ast.Not(), operand=new_t)
+                st.test = ast.copy_location(new_t, st.test)
+                for x in ast.walk(st.test):
+                    ast.copy_location(x, st) if not hasattr(x, "lineno") else None
+                used.add(t.func.attr)
+                k += 1
+    return k
+
+
 def respell(tree):
     np_names = {}
     for st in tree.body:
@@ -409,6 +491,7 @@ def respell(tree):
     n += _getattr_guard(tree)
     n += _unstar_zip(tree)
     n += _split_tuple_assignments(tree)
+    n += _inline_predicates(tree)
     n += _keywordise_self_calls(tree)
     if n:
         ast.fix_missing_locations(tree)
